@@ -37,10 +37,10 @@ TIERS = {
     "quick": dict(deep=5, emit=4, emit_all=2, intern=3, sim=(12, 20), sim_intern=(8, 10),
                   native=(240, 12), native_intern=(80, 10), limbo_log=300, vacuity=False, timeout=900,
                   focus=[(("TA",), 9, RECYCLE_KINDS, 2)]),
-    "thorough": dict(deep=6, emit=5, emit_all=3, intern=4, sim=(20, 300), sim_intern=(12, 60),
+    "thorough": dict(deep=6, emit=5, emit_all=3, intern=4, sim=(20, 150), sim_intern=(12, 40),
                      native=(3000, 16), native_intern=(800, 14), limbo_log=3000, vacuity=True, timeout=5400,
                      focus=[(("TA", "RED"), 6, (), 1), (("TA", "RED"), 7, RECYCLE_KINDS, 2),
-                            (("TA",), 11, RECYCLE_KINDS, 2)]),
+                            (("TA",), 10, RECYCLE_KINDS, 2)]),
 }
 
 INVS = ["Unique", "WeakLive", "NoDangling", "WeakEmpty", "NoStale", "AddrInjective"]
